@@ -9,8 +9,7 @@ use crate::DarkluaError;
 
 use std::collections::HashMap;
 use std::ffi::OsStr;
-use std::iter::FromIterator;
-use std::path::{Component, Path, PathBuf};
+use std::path::{Path, PathBuf};
 
 /// A require mode for handling content using Luau's require system.
 #[derive(Debug, Clone, Serialize, Deserialize, PartialEq, Eq)]
@@ -111,39 +110,7 @@ impl LuauRequireMode {
             source_path.display(),
         );
 
-        let mut generated_path = if path_utils::is_require_relative(require_path) {
-            log::trace!(
-                " ⨽ adjust relative path `{}` from `{}`",
-                require_path.display(),
-                source_path.display()
-            );
-
-            // if the source path is 'init.luau' or 'init.lua', we need to use @self
-            if self.is_module_folder_name(&source_path) {
-                let require_is_module_folder_name = self.is_module_folder_name(require_path);
-                // if we are about to make a require to a path like `./x/y/z/init.lua`
-                // we can pop the last component from the path
-                let take_components = require_path
-                    .components()
-                    .count()
-                    .saturating_sub(if require_is_module_folder_name { 1 } else { 0 });
-                let mut path_components: Vec<_> =
-                    require_path.components().take(take_components).collect();
-
-                if path_components.starts_with(&[Component::CurDir]) {
-                    path_components[0] = Component::Normal(OsStr::new("@self"));
-                } else if path_components.starts_with(&[Component::ParentDir, Component::ParentDir])
-                {
-                    path_components.remove(0);
-                } else if path_components.starts_with(&[Component::ParentDir]) {
-                    path_components[0] = Component::CurDir;
-                }
-
-                PathBuf::from_iter(path_components)
-            } else {
-                require_path.to_path_buf()
-            }
-        } else {
+        let mut generated_path = {
             let normalized_require_path = utils::normalize_path(require_path);
             log::trace!(
                 " ⨽ adjust non-relative path `{}` (normalized to `{}`) from `{}`",
